@@ -1,7 +1,8 @@
 (* Props_C11.v — property C11: ONLY theorem statements, each closed by [exact] of a lemma of
    C11_Proofs*, followed by Print Assumptions.  [to_string_key] is utils.ToStringKey as it is on the
    tree (with escapeKeyPart, fix 5d340d3); preload_hop / preload_m2m / preload_nested / assoc_find /
-   joins_model are the functions C11_Check.check_case evaluates on every run.
+   joins_model and (C11_Scan, second part of this file) find_m2m_recs / plain_recs / joins_recs are the
+   functions C11_Check.check_case evaluates on every run.
    [typed ks1 ks2]: corresponding key columns have the same SQL type (schema typing) - the only
    hypothesis on keys; nothing is assumed about their contents. *)
 From Verif Require Import Base C11_Model C11_Proofs C11_Proofs2 C11_Proofs3 C11_Proofs4 C11_Proofs5
